@@ -7,9 +7,12 @@ Definition c07_mean := @compute_mean_exec Qc QcOps.
 Definition c07_project := @project_exec Qc QcOps.
 Definition c07_mpi := @mpi_project_exec Qc QcOps.
 Definition c07_tail := @projecting_embed_tail Qc QcOps.
+Definition c07_mean_range := @compute_mean_range Qc QcOps.
+Definition c07_project_range := @project_range Qc QcOps.
+Definition c07_tail_range := @projecting_embed_tail_range Qc QcOps.
 Definition c07_spec_output := output_consistent_tol_b.
 Definition c07_spec_proj := is_projection_tol_b.
 Definition c07_spec_mean := training_mean_tol_b.
 Definition c07_spec_affine := affine_tol_b.
-Extraction "c07_model.ml" c07_mean c07_project c07_mpi c07_tail
+Extraction "c07_model.ml" c07_mean c07_project c07_mpi c07_tail c07_mean_range c07_project_range c07_tail_range
   c07_spec_output c07_spec_proj c07_spec_mean c07_spec_affine Q2Qc this.
